@@ -450,6 +450,9 @@ func lexLoopMoves(info *types.Info, fs *ast.ForStmt) string {
 							}
 						}
 					}
+					if id, ok := m.(*ast.IncDecStmt); ok && identObj(info, id.X) == v {
+						assigned = true
+					}
 					return true
 				})
 			}
